@@ -44,8 +44,11 @@ _STATE = {}
 
 
 def _setup(lang):
+    import logging
+
     from . import build_repo
 
+    logging.disable(logging.WARNING)        # "using dummy resolver for ..." etc. on stderr
     build_repo.overlay_all()
     from mwlib.network.siteinfo import get_siteinfo
     from mwlib.parser.expander import DictDB, Expander
@@ -79,76 +82,40 @@ def expand_once(lang, page):
     return ("ok", "", dt, len(out))
 
 
-def _search_worker(args):
-    """runs a list of (lang, page); progress goes to a small file so that the parent can name the
-    input on which a worker hangs."""
-    idx, items, progress = args
+def search_worker(items, extra, progress):
     bad, hist = [], Counter()
     tmax = 0.0
     for i, (lang, page) in enumerate(items):
-        with open(progress, "w") as f:
-            f.write(json.dumps([i, time.time()]))
+        if i % 64 == 0 and progress.stop_requested():
+            break
+        progress(i)
         st, detail, dt, n = expand_once(lang, page)
         hist[st] += 1
         tmax = max(tmax, dt)
         if st != "ok":
             bad.append({"lang": lang, "page": page, "status": st, "detail": detail})
-    with open(progress, "w") as f:
-        f.write(json.dumps([len(items), time.time()]))
-    return idx, bad, dict(hist), tmax
+    return bad, dict(hist), tmax
 
 
 def guarded_search(chk, items, nproc=16):
-    """run expand_once over items in worker processes; a worker stuck on one input for more than
-    HARD_TIMEOUT is killed and the input is reported."""
-    import multiprocessing as mp
+    """run expand_once over items in guarded child processes; a child stuck on one input for more
+    than HARD_TIMEOUT, or killed by it, names that input. Stops early once 5 inputs failed."""
+    from . import guard
 
-    scratch = chk.mkscratch()
-    ctx = mp.get_context("spawn")
-    nproc = max(1, min(nproc, len(items) // 50 + 1))
-    shards = [items[i::nproc] for i in range(nproc)]
+    def enough(results, culprits):
+        return len(culprits) + sum(len(r[0]) for r in results) >= 5 or len(culprits) >= 2
+
+    results, culprits = guard.guarded_run(str(chk.mkscratch()), "harness.c03:search_worker", items, nproc=nproc,
+                                          hard_timeout=HARD_TIMEOUT, stop_when=enough)
     bad, hist, tmax = [], Counter(), 0.0
-    pending = [(i, sh, 0) for i, sh in enumerate(shards)]     # (shard id, items, offset)
-    while pending:
-        procs = []
-        with ctx.Pool(len(pending)) as pool:
-            asyncs = []
-            for sid, sh, _off in pending:
-                prog = str(scratch / f"c03-progress-{sid}.json")
-                open(prog, "w").write("[0, %f]" % time.time())
-                asyncs.append((sid, sh, prog, pool.apply_async(_search_worker, ((sid, sh, prog),))))
-            nxt = []
-            done = set()
-            while len(done) < len(asyncs):
-                time.sleep(0.2)
-                for sid, sh, prog, ar in asyncs:
-                    if sid in done:
-                        continue
-                    if ar.ready():
-                        _, b, h, tm = ar.get()
-                        bad += b
-                        hist.update(h)
-                        tmax = max(tmax, tm)
-                        done.add(sid)
-                        continue
-                    try:
-                        i, t0 = json.loads(open(prog).read())
-                    except Exception:  # noqa: BLE001
-                        continue
-                    if time.time() - t0 > HARD_TIMEOUT and i < len(sh):
-                        lang, page = sh[i]
-                        bad.append({"lang": lang, "page": page, "status": "hang",
-                                    "detail": f"no result after {HARD_TIMEOUT:.0f} s of wall time"})
-                        hist["hang"] += 1
-                        done.add(sid)
-                        if i + 1 < len(sh):
-                            nxt.append((sid, sh[i + 1:], 0))
-                        # results of the items before i in this shard are lost; re-run them cheaply
-                        if i:
-                            nxt.append((sid + 1000, sh[:i], 0))
-            pool.terminate()
-        pending = nxt
-        del procs
+    for b, h, tm in results:
+        bad += b
+        hist.update(h)
+        tmax = max(tmax, tm)
+    for item, kind, detail in culprits:
+        hist[kind] += 1
+        lang, page = item if item else ("?", None)
+        bad.append({"lang": lang, "page": page, "status": kind, "detail": detail})
     return bad, hist, tmax
 
 
@@ -259,27 +226,35 @@ def fuzz_space(rng, n, names):
 
 # ----------------------------------------------------------------------------- correspondence
 
-def _corr_worker(args):
-    seed, n = args
+def corr_universe(useed):
+    from . import templ_common as tc
+
+    rng = random.Random(useed)
+    page, db = tc.UGen(rng).universe()
+    return page, db, rng.choice([100, 100, 100, 5, 3, 8, 2])
+
+
+def corr_worker(items, extra, progress):
     from . import build_repo
 
     build_repo.overlay_all()
     from . import templ_common as tc
     from .common import Driver, dec
 
-    rng = random.Random(seed)
-    g = tc.UGen(rng)
     reqs, meta = [], []
     hist = Counter()
-    for _ in range(n):
-        page, db = g.universe()
-        lim = rng.choice([100, 100, 100, 5, 3, 8, 2])
+    for i, useed in enumerate(items):
+        if i % 64 == 0 and progress.stop_requested():
+            break
+        progress(i)
+        page, db, lim = corr_universe(useed)
         t = time.process_time()
         out, parsed, trees = tc.expand_real(page, db, lim)
         dt = time.process_time() - t
         hit = tc.LIMIT_HITS[0]
         reqs.append(tc.model_request(parsed, trees, lim if hit else 100000))
         meta.append((page, db, lim, out, hit, dt))
+    progress(len(items))
     outs = Driver("templ").ask(reqs)
     diffs, viol = [], []
     for (page, db, lim, out, hit, dt), o in zip(meta, outs):
@@ -301,22 +276,37 @@ def _corr_worker(args):
 
 
 def correspondence(chk, n_total, nproc=12):
-    import multiprocessing as mp
+    from . import guard
 
-    per = max(50, n_total // nproc)
-    jobs = [(chk.seed * 1000 + i, per) for i in range(nproc)]
-    ctx = mp.get_context("spawn")
-    with ctx.Pool(nproc) as pool:
-        res = pool.map(_corr_worker, jobs)
+    items = [chk.seed * 10_000_000 + i for i in range(n_total)]
+    results, culprits = guard.guarded_run(str(chk.mkscratch()), "harness.c03:corr_worker", items, nproc=nproc,
+                                          hard_timeout=HARD_TIMEOUT + 60, stop_when=lambda r, c: len(c) >= 2)
     diffs, viol, hist = [], [], Counter()
-    for d, v, h in res:
+    for d, v, h in results:
         diffs += d
         viol += v
         hist.update(h)
-    return diffs, viol, hist, per * nproc
+    for item, kind, detail in culprits:
+        hist[kind] += 1
+        if item is None:
+            raise common.HarnessError("correspondence worker failed to start: " + detail)
+        page, db, lim = corr_universe(item)
+        viol.append({"why": f"{kind}: {detail}", "page": page, "templates": db, "limit": lim})
+    return diffs, viol, hist, n_total
 
 
 # ----------------------------------------------------------------------------- main
+
+def run_corpus(chk):
+    """minimised past failures run first (each in the guarded runner: they may hang or crash)."""
+    f = common.ROOT / "corpus" / "C03" / "known.json"
+    if not f.exists():
+        return []
+    items = [(e["lang"], e["page"]) for e in json.load(open(f))]
+    bad, _, _ = guarded_search(chk, items, nproc=4)
+    chk.coverage["corpus_inputs"] = len(items)
+    return bad
+
 
 def replay(chk, data):
     from . import build_repo
@@ -366,6 +356,7 @@ def run(chk: common.Check):
 
     # --- correspondence
     ncorr = 40000 if tier == "thorough" else 4000
+    corpus_bad = run_corpus(chk)
     diffs, cviol, chist, ncorr = correspondence(chk, ncorr)
 
     # --- search on the real code
@@ -401,7 +392,7 @@ def run(chk: common.Check):
         "markup nesting within the interpreter stack (the property excludes deeper nesting)",
         "CPU budget per call is a threshold on process time, two orders of magnitude above the typical cost",
     ]
-    viol = [{"why": f"{b['status']}: {b['detail']}", **b} for b in bad] + cviol
+    viol = [{"why": f"{b['status']}: {b['detail']}", **b} for b in corpus_bad + bad] + cviol
     seen = set()
     for v in viol:
         key = (v["why"].split(":")[0], v.get("page", "")[:20])
